@@ -276,11 +276,11 @@ def _compare(ctx, f, g, path, K):
             ctx.fail("hdf5-roundtrip/not-equal", "from_file(to_file(f)) == f is False", instance=_sel(ctx, *K["mesh"], *K["sub"]))
 
 
-def _roundtrip(ctx, f, d, K, refuse_class=None):
-    path = os.path.join(d, "f.h5")
+def _roundtrip(ctx, f, d, K, refuse_class=None, opts=None, ext=".h5"):
+    path = os.path.join(d, "f" + ext)
     before = C.field_snap(f)
-    ctx.step(1, "to_file(.h5)")
-    raised, e = C.raises(f.to_file, path)
+    ctx.step(1, f"to_file({ext}{', ' + repr(opts) if opts else ''})")
+    raised, e = C.raises(f.to_file, path, **(opts or {}))
     ctx.check()
     if raised:
         cls = refuse_class or "valid-field"
@@ -389,6 +389,35 @@ def unit_field(ctx):
          "data": FIELD_KEYS, "refuse": ("labels", "nvdim")}
     with _Tmp() as d:
         _roundtrip(ctx, f, d, K, _str_class(None, None, lab))
+
+
+WRITER_OPTIONS = [{}, {"representation": "bin4"}, {"representation": "txt"}, {"representation": "bin8"},
+                  {"extend_scalar": True}, {"save_subregions": False}, {"representation": "bin4", "extend_scalar": True}]
+
+
+def unit_writer_options(ctx):
+    """``Field.to_file`` has options that belong to the other formats (representation, extend_scalar, save_subregions).
+    "Writing any field to HDF5 and reading it back returns an equal field" has no exception for them: whatever the caller
+    passes, the HDF5 file holds the complete field - or the call is refused."""
+    ndim = ctx.choose("ndim", [3, 2])
+    nv = ctx.choose("nvdim", [1, 3])
+    dtype = ctx.choose("dtype", ["float64", "complex128", "int64"])
+    opts = ctx.choose("options", WRITER_OPTIONS)
+    ext = ctx.choose("extension", [".h5", ".hdf5"])
+    n = SHAPES[ndim]
+    sub = {"zeta": df.Region(p1=[0.0] * ndim, p2=[2.5e-9 * (1 if a == 0 else k) for a, k in enumerate(n)])}
+    mesh = df.Mesh(region=df.Region(p1=[0.0] * ndim, p2=[float(k) * 2.5e-9 for k in n]), n=n, subregions=sub)
+    f = df.Field(mesh, nvdim=nv, value=_values("tracer", dtype, n, nv, ctx.seed) / (1 if dtype == "int64" else 7.0), dtype=np.dtype(dtype),
+                 unit="A/m", valid=C.coded_mask(n, 1))
+    K = {"mesh": ("ndim",), "sub": ("ndim",), "field": ("ndim", "nvdim"), "labels": ("nvdim",), "unit": (),
+         "data": ("ndim", "nvdim", "dtype", "options"), "refuse": ("options",)}
+    with _Tmp() as d:
+        path = os.path.join(d, "f" + ext)
+        raised, e = C.raises(f.to_file, path, **opts)
+        if raised and opts:
+            ctx.note(f"option-refused:{sorted(opts)}:{type(e).__name__}")  # refusing a foreign option loses nothing
+            return
+        _roundtrip(ctx, f, d, K, None, opts, ext)
 
 
 def unit_cross(ctx):
@@ -536,6 +565,7 @@ def units(tier):
         {"name": "mesh", "fn": unit_mesh, "bound": None},
         {"name": "field", "fn": unit_field, "bound": None},
         {"name": "cross", "fn": unit_cross, "bound": 2},
+        {"name": "writer_options", "fn": unit_writer_options, "bound": None},
         {"name": "legacy", "fn": unit_legacy, "bound": None},
         {"name": "provenance", "fn": unit_provenance, "bound": None},
         {"name": "histories", "fn": unit_histories, "bound": None},
